@@ -158,6 +158,50 @@ def runTimed (st : PSt) : List (Nat × Str) → List (Nat × Act)
     let r := feed st c
     r.2.map (fun a => (t, a)) ++ runTimed r.1 cs
 
+/-! ### the server side of the grammar: how a conformant server renders typed events -/
+
+/-- what a server writes on the event stream -/
+inductive Ev where
+  | endpoint (d : Str)
+  | message (d : Str)
+  | keepalive (d : Str)
+  /-- a comment line `:text` -/
+  | comment (c : Str)
+  deriving DecidableEq, Repr
+
+/-- the lines of one event; `crlf` = lines end in CRLF instead of LF -/
+def evLines (e : Ev) (crlf : Bool) : List Str :=
+  let cr : Str := if crlf then ['\r'] else []
+  match e with
+  | .endpoint d => [sEventPfx ++ sEndpoint ++ cr, sDataPfx ++ d ++ cr, cr]
+  | .message d => [sEventPfx ++ sMessage ++ cr, sDataPfx ++ d ++ cr, cr]
+  | .keepalive d => [sEventPfx ++ sKeepalive ++ cr, sDataPfx ++ d ++ cr, cr]
+  | .comment c => [':' :: c ++ cr]
+
+/-- every line followed by a line feed -/
+def joinLF : List Str → Str
+  | [] => []
+  | l :: ls => l ++ '\n' :: joinLF ls
+
+def renderText (evs : List (Ev × Bool)) : Str := joinLF (evs.flatMap (fun p => evLines p.1 p.2))
+
+/-- the action the transport must see for an event -/
+def Ev.act : Ev → Option Act
+  | .endpoint d => some (.endpoint d)
+  | .message d => some (.message d)
+  | .keepalive _ => none
+  | .comment _ => none
+
+/-- text without a line feed and without leading / trailing white space (compact JSON, URLs) -/
+def CleanText (d : Str) : Prop :=
+  '\n' ∉ d ∧ (∀ c, d.head? = some c → isWs c = false) ∧ (∀ c, d.getLast? = some c → isWs c = false)
+
+def Ev.Clean : Ev → Prop
+  | .endpoint d => CleanText d
+  | .message d => CleanText d
+  | .keepalive d => CleanText d
+  | .comment c => '\n' ∉ c
+
 /-! ## 3. establishment -/
 
 inductive Conn where
